@@ -96,7 +96,7 @@ def generate_source_code(docstring, parsed):
         # If we have a start rule, then update its expression to skip ahead past
         # any leading ignored stuff.
         if isinstance(start_rule, ex.Class):
-            first_rule = start_rule.fields[0] if start_rule.fields else None
+            first_rule = start_rule.members[0] if start_rule.members else None
         else:
             first_rule = start_rule
 
